@@ -1,5 +1,6 @@
 import BFL.Gen.RaceTable
 import BFL.Proofs.RaceComplete
+import BFL.Proofs.RaceJoin
 /-
 C10 — the obligations that are re-checked against what the code says *now*: every statement
 here is evaluated by the kernel (`decide +kernel`, no axioms) on the table regenerated from the
@@ -60,6 +61,11 @@ theorem lifecycle_shared :
 theorem lifecycle_four :
     (table.fieldIds [(name% "FilteringAlgorithm", name% "run_"), (name% "FilteringAlgorithm", name% "reset_"),
         (name% "FilteringAlgorithm", name% "teardown_"), (name% "FilteringAlgorithm", name% "filtering_step_")]).length = 4 := by
+  decide +kernel
+
+/-- **must hold**: `wait()` joins the filtering thread, and no function of either role detaches, moves
+    or reassigns the handle (`boot()` being the only assignment) -/
+theorem join_certified : table.joinCertifiedIn (reachClaim .controller) (reachClaim .filter) = true := by
   decide +kernel
 
 /-! ### consequences (no evaluation) -/
